@@ -737,6 +737,11 @@ func chanCapacities(p *core.Prog, ds *core.Describer, f *ssa.Function, v ssa.Val
 	switch x := v.(type) {
 	case *ssa.MakeChan:
 		return []string{capDesc(p, ds, f, x.Size, 0)}
+	case *ssa.ChangeType:
+		// chan T handed over as chan<- T / <-chan T
+		return chanCapacities(p, ds, f, x.X, depth)
+	case *ssa.MakeInterface:
+		return chanCapacities(p, ds, f, x.X, depth)
 	case *ssa.Parameter:
 		var out []string
 		k := core.ParamIndex(x.Parent(), x.Name())
